@@ -17,6 +17,7 @@ Facts (each one is the presence / order of statements, checked on comment-stripp
   chanDeinitDecrefsUndelivered  janet_chan_deinit hands every undelivered item to janet_chan_unpack(.., 1) = DECREF unmarshal,
                        whose LB_THREADED_ABSTRACT case gives the in-transit reference back (no table entry)
   decrefCleanupFreesAtZero  ... and finalizes + frees the object when that decrement reaches 0
+  packFailureReturnsTransitRefs  janet_chan_pack's failure branch runs the same clean-up unmarshal on the partial buffer
   completionAfterBody  janet_thread_body: subr(msg) is evaluated before the completion record is written to the pipe
 plus lock-discipline counts (critical sections are atomic steps in the model): any change there is an ExtractError
 (= broken tie; the check then searches harder on the implementation)."""
@@ -253,6 +254,16 @@ def extract(tree):
     mz = re.search(r"if\s*\(\s*(?:0\s*==\s*janet_abstract_decref\s*\(\s*u\.ptr\s*\)|janet_abstract_decref\s*\(\s*u\.ptr\s*\)\s*==\s*0|!\s*janet_abstract_decref\s*\(\s*u\.ptr\s*\))\s*\)\s*\{", dec_branch)
     zb = dec_branch[mz.end() - 1:match_brace(dec_branch, mz.end() - 1)] if mz else ""
     flags["decrefCleanupFreesAtZero"] = bool(mz and re.search(r"->type->gc\s*\(", zb) and re.search(r"janet_free\s*\(", zb))
+    # ---- a give that fails to pack (Model.lean `RAct.failSend`): janet_chan_pack catches the panic of janet_marshal and, before it
+    # discards the partial buffer, gives back the references taken for the transit (clean-up unmarshal with DECREF)
+    pkb = func_body(ev, "janet_chan_pack")
+    mf = re.search(r"if\s*\(\s*sig\s*\)\s*\{", pkb)
+    fb = pkb[mf.end() - 1:match_brace(pkb, mf.end() - 1)] if mf else ""
+    idec, idis = fb.find("JANET_MARSHAL_DECREF"), fb.find("janet_buffer_deinit")
+    flags["packFailureReturnsTransitRefs"] = bool(
+        mf and re.search(r"\bjanet_try\s*\(", pkb)
+        and re.search(r"janet_unmarshal\s*\(\s*buf->data\s*,\s*buf->count\s*,\s*JANET_MARSHAL_UNSAFE\s*\|\s*JANET_MARSHAL_DECREF\s*,", fb)
+        and 0 <= idec < idis and re.search(r"return\s+1\s*;", fb))
     # ---- run queue / wait discipline (Session 3: Model.lean `take`, `runTask`, `resume`, `handle`)
     popf = _corefn_body(ev, "cfun_channel_pop")
     flags["takeSchedulesSelf"] = bool(re.search(
